@@ -322,7 +322,7 @@ def explore_pyapi(case):
         numapi.check_history(res, B, [], xs, case, "pyapi", targets, ["exp", "ad", "wedge"] + targets, tol=1e-9)
         gen_xs = numapi.generic_pair(xs)
         quick_ = tier != "thorough"
-        numapi.check_threads(res, B, [], gen_xs, dict(case, tier="thorough"), "pyapi", targets, max_runs=(250 if quick_ else 20000),
+        numapi.check_threads(res, B, [], gen_xs, dict(case, tier="thorough"), "pyapi", targets, max_runs=(250 if quick_ else 2500),
                              only_pairs=([("left_jacobian", "left_jacobian"), ("left_jacobian_inv", "right_jacobian")] if quick_ else None))
         for x in xs:
             if maxabs(x) > 0:
